@@ -376,6 +376,101 @@ def d2b_fidelity(chk: Check) -> None:
                  "what is re-encrypted is not the text just decrypted")
 
 
+def d2c_echo_test(chk: Check) -> None:
+    """decrypt_eyaml recognises a failed decryption by the tool echoing
+    its input.  What is echoed is the text that was *sent* (marker text
+    with whitespace removed), so that is what the output must be compared
+    with; compared with the caller's value, a folded / multi-line value
+    that comes back unchanged passes as "decrypted" and is written back."""
+    from sa.coords import reaching_def
+    prog = chk.prog
+    chk.rule("C19-D2c", "the failed-decryption test compares the tool's "
+             "output with the text that was sent to the tool", floor=1)
+    fi = prog.func("EYAMLProcessor.decrypt_eyaml")
+    runs = [c for c in walk_local(fi.node) if isinstance(c, ast.Call) and
+            src(c.func) == "run"]
+    if len(runs) != 1:
+        raise AnalysisError("decrypt tool invocation not found")
+    inp = {k.arg: k.value for k in runs[0].keywords}.get("input")
+    d = reaching_def(inp.id, runs[0]) if isinstance(inp, ast.Name) else inp
+    if not (isinstance(d, ast.Call) and isinstance(d.func, ast.Attribute)
+            and d.func.attr == "encode"):
+        raise AnalysisError("text sent to the decrypt tool not found")
+    sent = src(d.func.value)
+    top: ast.AST = runs[0]
+    while isinstance(parent(top), (ast.Attribute, ast.Call)) and \
+            (getattr(parent(top), "value", None) is top or
+             getattr(parent(top), "func", None) is top):
+        top = parent(top)
+    asg = parent(top)
+    out = src(asg.target) if isinstance(asg, ast.AnnAssign) else (
+        src(asg.targets[0]) if isinstance(asg, ast.Assign) else None)
+    tests = [c for c in walk_local(fi.node) if isinstance(c, ast.Compare)
+             and len(c.ops) == 1 and isinstance(c.ops[0], ast.Eq) and
+             out in (src(c.left), src(c.comparators[0]))]
+    if not tests:
+        chk.fail("C19-D2c", fi, fi.node, "echo test",
+                 "the tool's output is never compared with what was sent: "
+                 "an echoed (undecrypted) value is taken for plaintext")
+        return
+    for t in tests:
+        other = src(c_) if (c_ := (t.comparators[0]
+                                   if src(t.left) == out else t.left)) \
+            is not None else "?"
+        if other == sent:
+            chk.ok("C19-D2c", fi, t, src(t), "compared with `{}`, the text "
+                   "encoded into the tool's input".format(sent))
+        else:
+            chk.fail("C19-D2c", fi, t, src(t),
+                     "the output is compared with `{}`, but what was sent "
+                     "to the tool is `{}`".format(other, sent))
+
+
+def d7_keys_differ(chk: Check) -> None:
+    """Rotation to an unchanged key is not a rotation: the run is refused
+    when the private keys are the same *or* the public keys are the same
+    (re-encrypting under the old public key leaves every value readable
+    with the old private key only)."""
+    from sa.boolean import NotBoolean, truth_table
+    prog = chk.prog
+    chk.rule("C19-D7", "eyaml-rotate-keys refuses to run when either key of "
+             "the new pair equals the corresponding old key (truth table)",
+             floor=1)
+    fi = c17.fn(prog, ROTATE, "validateargs")
+    chk.analysed(fi)
+    hits = 0
+    for n in walk_local(fi.node):
+        if not isinstance(n, ast.If):
+            continue
+        cmps = [c for c in ast.walk(n.test) if isinstance(c, ast.Compare)
+                and len(c.ops) == 1 and isinstance(c.ops[0], ast.Eq)
+                and "key" in src(c).lower() and "old" in src(c)
+                and "new" in src(c)]
+        if len(cmps) < 2:
+            continue
+        hits += 1
+        atoms = [src(c) for c in cmps]
+        text = "if " + src(n.test)[:80]
+        try:
+            tt = truth_table(n.test, atoms)
+        except NotBoolean as ex:
+            raise AnalysisError("key test not boolean: {}".format(ex))
+        ok = all(val == any(combo) for combo, val in tt.items())
+        sets_error = any(isinstance(s_, ast.Assign) and
+                         src(s_.value) == "True" for s_ in n.body)
+        if ok and sets_error:
+            chk.ok("C19-D7", fi, n, text, "true as soon as one pair of keys "
+                   "is equal; sets the error flag")
+        else:
+            chk.fail("C19-D7", fi, n, text,
+                     "the refusal does not fire for every combination with "
+                     "an unchanged key (truth table {}): the secrets are "
+                     "re-encrypted under a key that was to be retired"
+                     .format({k: v for k, v in tt.items()}))
+    if hits == 0:
+        raise AnalysisError("old/new key comparison not found")
+
+
 def d4_changed(chk: Check, model: CliModel) -> None:
     c17.d6_rotate(chk, model, rid="C19-D4a")
     prog = chk.prog
@@ -497,6 +592,8 @@ def run(chk: Check) -> None:
     d1_marker(chk)
     d2_d3(chk)
     d2b_fidelity(chk)
+    d2c_echo_test(chk)
+    d7_keys_differ(chk)
     d4_changed(chk, model)
     d5_discovery(chk)
     d6_handlers(chk)
